@@ -215,6 +215,32 @@ func (fc *FnCtx) inferFrame(fn *ssa.Function) *inferredFrame {
 					}
 				case ssa.CallInstruction:
 					c := x.Common()
+					// A pointer to a by-value struct field (&x.f, also as a method receiver x.f.m())
+					// handed to a callee: the callee's writes are recorded under the field type's
+					// keys, but the memory is a part of x. Every leaf below x.f may be written.
+					for _, av := range c.Args {
+						root, path, space, ok := staticAddr(av)
+						if !ok || len(path) == 0 || space != "fld" {
+							continue
+						}
+						func() {
+							defer func() { recover() }()
+							names, t := pathNames(root, path)
+							if _, isStruct := t.Underlying().(*types.Struct); !isStruct {
+								return
+							}
+							tn := typeName(t)
+							if strings.HasPrefix(tn, "sync.") || strings.HasPrefix(tn, "atomic.") || strings.HasPrefix(tn, "sync/atomic.") {
+								return // locks and atomics are modelled natively under the enclosing struct's keys
+							}
+							for _, l := range leavesOf(t) {
+								k := "fld|" + typeName(root) + names + l.Suffix
+								if !fc.isStableKey(k) {
+									res.keys[k] = arrSort(false, l.Sort)
+								}
+							}
+						}()
+					}
 					if c.IsInvoke() {
 						key := "::(" + typeNameFull(c.Value.Type()) + ")." + c.Method.Name()
 						if ct := fc.eng.cs.Funcs[key]; ct != nil {
